@@ -3,8 +3,10 @@ package main
 import (
 	"encoding/json"
 	"fmt"
+	"github.com/alecthomas/participle/v2"
 	"os"
 	"reflect"
+	"strings"
 	"time"
 
 	"verifharness/gengram"
@@ -71,6 +73,7 @@ func ebnfRun(args []string) error {
 	if err := json.Unmarshal(b, &cases); err != nil {
 		return err
 	}
+	participle.MaxIterations = 2000 // (the failing parses below must not spin through a million iterations)
 	for _, c := range cases {
 		id := c["id"].(string)
 		real := map[string]any{"status": "ok", "tree": []eProd{}, "roundtrip": false, "text": ""}
@@ -99,6 +102,18 @@ func ebnfRun(args []string) error {
 			}
 			text := p.String()
 			real["text"] = text
+			for _, want := range staticExpect[id] {
+				if !strings.Contains(text, want) {
+					real["status"] = fmt.Sprintf("missing: String() does not contain %q", want)
+					return
+				}
+			}
+			for rep := 0; rep < 30 && len(staticExpect[id]) > 0; rep++ { // (map iteration order must not matter)
+				if p3, err := mk(); err == nil && p3.String() != text {
+					real["status"] = fmt.Sprintf("unstable: another Build of the same grammar prints %q", p3.String())
+					return
+				}
+			}
 			// String() is a pure function of the built parser: a second call, and a call after a failed parse whose error
 			// message renders grammar nodes, give the same text; so does the first call on a fresh parser that failed a parse
 			failParse(p)
